@@ -521,6 +521,31 @@ func (g *Gen) applyContract(t callTarget, c *ssa.CallCommon, args []string, recv
 	default:
 		// extern with a contract but without assigns: assigns nothing
 	}
+	// writes_args: an external decoder fills the object its (boxed) pointer argument designates
+	if ct.Flags["writes_args"] != "" {
+		for _, a := range c.Args {
+			v := a
+			if mi, ok := v.(*ssa.MakeInterface); ok {
+				v = mi.X
+			}
+			pt, ok := v.Type().Underlying().(*types.Pointer)
+			if !ok {
+				continue
+			}
+			addr := g.val(v)
+			var cells []cellTarget
+			if isStruct(pt.Elem()) {
+				cells = g.structCells(pt.Elem(), addr)
+			} else {
+				cells = []cellTarget{{varName: cellVar(pt.Elem()), sort: ArrSort(SInt, sortOf(pt.Elem())), addrs: []string{addr}}}
+			}
+			for _, cl := range cells {
+				cur := post.Get(cl.varName, cl.sort)
+				nv := g.vc.Fresh("decoded."+cl.varName, elemSortOfArr(cl.sort, 1))
+				post = post.Set(cl.varName, cl.sort, Sto(cur, cl.addrs[0], nv))
+			}
+		}
+	}
 	// callback invariants: asserted here, assumed after the call (the callee's own frame is disjoint from them
 	// by its assigns clause; every invocation of the callback preserves them by the callback's own contract)
 	var cbInv []*Clause
@@ -793,6 +818,11 @@ func (g *Gen) finishReturns() {
 				}
 				continue
 			}
+		}
+		if strings.HasPrefix(label, "assumed") {
+			// assumed clause: used by callers, not checked against the body (listed in the evidence)
+			g.vc.abstract(fmt.Sprintf("ASSUMED clause %s of %s is not checked against the body: %s", label, funcKey(g.fn), e.Text))
+			continue
 		}
 		g.vc.Assert(fmt.Sprintf("%s#ensures:%s", funcKey(g.fn), label), "ensures", guard, t, pos, e.Text)
 	}
